@@ -14,11 +14,25 @@ PROPS = {
                      "that those callers pass the expression they were given is part of C02's statement-level units"],
         assumptions=["wf(skel(input)) is assumed of every parsed input (parser guarantee): operator tokens match their variant, operands fit",
                      "leaf formatters (calls, tables, functions, vars, if-expressions, interpolated strings, type assertions) keep their identity (class C stubs)"]),
-    "C02": dict(units=["expr"],
+    "C08": dict(units=["ctx", "block"],
+        explanation="should_format_node (real text): inside an ignore region or under a `stylua: ignore` directive the decision is Skip. "
+                    "format_stmt / format_last_stmt: Skip => the node is returned unchanged. format_block (real loop, inductive invariant over the "
+                    "peekable iterator): for every statement whose decision (under the context folded from the ignore start/end toggles) is Skip, the "
+                    "output pair (statement, semicolon token) is identical to the input pair; same for the last statement.",
+        not_decided=["the string matching that recognises the directive text inside a comment (comment.lines().map(trim) — str iterators): assumed as has_ignore()/toggled()",
+                     "table fields (format_field / format_multiline_table) and require-sorting inside ignore regions: see units table / sort when present"],
+        assumptions=["Block::stmts_with_semicolon / with_stmts / Peekable::next/peek behave as sequences (class A/B)"]),
+    "C09": dict(units=["ctx", "block"],
+        explanation="should_format_node (real text) returns NotInRange iff start < range.start or end > range.end for all positions and bounds. "
+                    "format_stmt / format_last_stmt: NotInRange => only nested blocks may change (stmt_block::*, assumed). format_block: an out-of-range "
+                    "statement keeps its semicolon token and trailing trivia (pair pushed as returned), in the same position.",
+        not_decided=["in-range statements come out as in whole-file formatting (relates two runs)", "stmt_block::format_stmt_block touches only nested blocks (assumed, class C)"],
+        assumptions=[]),
+    "C02": dict(units=["expr", "block"],
         explanation="expression spine: same obligations as C05 (operator tree, leaves, operators)",
         not_decided=["statement/block/args/token layers are decided in their own units (see runs)"],
         assumptions=[]),
-    "C01": dict(units=["expr"],
+    "C01": dict(units=["expr", "block"],
         explanation="necessary conditions only: `- -x` guard on both paths, right-open expressions never freed under an operator",
         not_decided=["whole-grammar printer correctness"], assumptions=[]),
 }
@@ -41,11 +55,28 @@ EXPR_WITNESSES = [
     w(f"local x = (-{a40} :: number) + {b53}\nlocal y = {a40} + (if c then {b53} else d) + e\n", syntax="luau", sweep=(1, 200)),
     w(f"local x = {a40} or {a40} + ({b53} --[[c]] :: T) < {'c'*32}\n", syntax="luau", sweep=(1, 200)),
     w(f"return ({a40}.f()) + (...), ({a40}()), (...)\n", sweep=(1, 200)),
+    w("local a = (#t) ^ 2\nlocal b = (not x) ^ y\nlocal c = (-x) ^ 2\n", sweep=(1, 200)),
+    w(f"local v = (-some.long.name.here.{a40}):method()\nlocal w = (not a.b.{a40}).field\n", sweep=(1, 200)),
+    w(f"local v = (x.{a40} :: T).field\n", syntax="luau", sweep=(1, 200)),
     w(f"local t = ({a40} + {b53}) * ({a40} - ({b53} - {a40})) / (({a40}) ^ ({b53} ^ c)) .. (d .. e)\n", sweep=(1, 200)),
     w(f"local t = not ({a40} == {b53}) and (not {a40}) == {b53} or #({a40} .. {b53}) > 1\n", sweep=(1, 200)),
     w(f"local t = ({a40} << 2) | ({b53} & 3) ~ (~{a40} >> 1) // 2\n", syntax="lua54", sweep=(1, 200)),
 ]
+IGN = "-- stylua: ignore\nlocal z   =   3; -- hi\n(f)()\n-- stylua: ignore\nlocal x   = 1;\nlocal y   = 2;\n-- stylua: ignore\nreturn   x;\n"
+BLOCK_WITNESSES = [
+    w(IGN, oracle="contains", contains="local z   =   3; -- hi\n(f)()\n"),
+    w(IGN, oracle="contains", contains="local x   = 1;\n"),
+    w(IGN, oracle="contains", contains="return   x;\n"),
+    w("-- stylua: ignore start\nlocal a   =  1;\nlocal  b = 2; -- c\n-- stylua: ignore end\nlocal   c = 3;\n", oracle="contains", contains="local a   =  1;\nlocal  b = 2; -- c\n"),
+    w("local a   = 1\nlocal x = 2; -- hi\n(f)()\n", oracle="contains", contains="local x = 2; -- hi\n(f)()\n", range=(0, 12)),
+    w("local function f(x)\n\tif x then\n\t\t-- stylua: ignore start\n\t\treturn   lo ,  { 1,2,3 }\n\tend\n\tlocal   y   = 1\nend\n", oracle="contains", contains="return   lo ,  { 1,2,3 }"),
+    w("\n\nreturn function( )\n\tlocal   x = 1\nend\n", oracle="contains", contains="\n\nreturn function( )\n", range=(22, 35)),
+    w("\n\nlocal function setup( )\n\tlocal   x = 1\nend\n", oracle="contains", contains="\n\nlocal function setup( )\n", range=(27, 40)),
+    w("local a = 1;\n(f)()\nf();\n(g).x = 1\nrepeat until x;\n(h)()\n", oracle="selfverify"),
+    w("x += y;\n(f)()\nx -= 1;\n(g).y += 2\n", oracle="selfverify", syntax="luau"),
+]
 WITNESSES = {
+    "C08.": BLOCK_WITNESSES, "C09.": BLOCK_WITNESSES, "C01.semicolon": BLOCK_WITNESSES[-2:], "C01.next_starts": BLOCK_WITNESSES[-2:],
     "C05.": EXPR_WITNESSES,
     "C01.double_minus_guard": EXPR_WITNESSES[1:3],
 }
